@@ -22,7 +22,7 @@ RULE = ("Part 'planted': rank-planted problems of gen_linear (n<=9, exact intege
         ">= 2 components, or the matrix is rank deficient, or a covariance block has band >= 1; distinct by sha1 of the case.")
 ASSUMPTIONS = ["the graph of a sparse matrix is defined on stored elements (an explicitly stored zero is an edge)",
                "rank decisions are only judged when numpy finds every pivot of the reference LDL' outside (1e-11, 1e-5): "
-               "Envelope::cholDec applies the absolute tolerance sqrt(eps) to pivots",
+               "Envelope::cholDec: first pivot dependent iff exactly zero, later pivots iff |d| <= sqrt(eps) * |diagonal element| (the rule in the code, relative since the pivot repair)",
                "the structure of the homogenised matrix is taken from the driver (exact zeros produced by cancellation are "
                "dropped by gama); its values are compared with inv(chol(C)) A",
                "covariance blocks given to Homogenization are positive definite (its caller checks that before)"]
@@ -208,7 +208,7 @@ def dense_of(rows, m, n):
 
 
 def ldl_ref(N):
-    """dense LDL' with Envelope::cholDec's pivot rule: |d| < sqrt(eps) -> d = 0 and the column of L is 0.
+    """dense LDL' with Envelope::cholDec's pivot rule -> d = 0 and the column of L is 0.
     Returns L, D, ambiguous (a pivot close to the threshold)"""
     n = N.shape[0]
     L = np.eye(n)
@@ -221,9 +221,12 @@ def ldl_ref(N):
         x = np.where(D[:i] != 0, y / np.where(D[:i] != 0, D[:i], 1.0), 0.0)
         L[i, :i] = x
         d = N[i, i] - np.sum(x * x * D[:i])
-        if 1e-11 < abs(d) < 1e-5:
+        # the rule of Envelope::cholDec as it is now (relative since the pivot repair): the first pivot is dependent only
+        # when it is exactly zero, a later one when |d| <= sqrt(eps) * |diagonal element|
+        sc = abs(N[i, i])
+        if i > 0 and sc > 0 and 1e-11 < abs(d) / sc < 1e-5:
             amb = True
-        D[i] = 0.0 if abs(d) < PIVOT_TOL else d
+        D[i] = 0.0 if (d == 0.0 if i == 0 else abs(d) <= PIVOT_TOL * sc) else d
     return L, D, amb
 
 
